@@ -31,7 +31,8 @@ fn root_ok(r: &Dy, x: &Dy, k: u32, p: u64, q: i64) -> (bool, f64) {
     (ok, if num.is_zero() { 0.0 } else { num.ratio_f64(&den) })
 }
 
-pub fn c13_sqrt(c: &mut Ctx, a: W) {
+pub fn c13_sqrt(c: &mut Ctx, a: W) -> f64 {
+    let mut out_ratio = 0.0f64;
     let ins = [hx(a.0), hx(a.1)];
     let x = dy(a);
     c.note("sqrt", &ins, a.0 > 0.0);
@@ -54,10 +55,12 @@ pub fn c13_sqrt(c: &mut Ctx, a: W) {
                     c.viol("sqrt", "accuracy", &ins, &outs(r), format!("relative error exceeds 32*2^-106: err/bound = {ratio:.4e}"));
                 }
                 c.ratio("sqrt", "32u^2", ratio, &ins);
+                out_ratio = ratio;
                 c.sample("sqrt", || json!({"x": [a.0, a.1], "r": [r.0, r.1], "err_over_bound": ratio}));
             }
         }
     }
+    out_ratio
 }
 
 pub fn c13_cbrt(c: &mut Ctx, a: W) {
@@ -199,7 +202,10 @@ fn c13_x(r: &mut Rng, positive: bool) -> W {
 }
 
 pub fn c13(c: &mut Ctx) {
+    let ns = c.budget(24_000_000, 2_400_000_000);
+    crate::mon_fn::panic_sweep(c, "roots/panic_sweep", &[|x| x.sqrt(), |x| x.cbrt()], &[(0.0, 4.0), (1.0, 1024.0), (0.0, 1.0e6)], -900, 899, true, ns / 2);
     let n = c.budget(4_000_000, 400_000_000) / 4;
+    let mut pool: Vec<(f64, W)> = Vec::new();
     for z in [(0.0, 0.0), (-0.0, 0.0), (0.0, -0.0), (-0.0, -0.0)] {
         c13_sqrt(c, z);
         c13_cbrt(c, z);
@@ -209,7 +215,34 @@ pub fn c13(c: &mut Ctx) {
     }
     for i in 0..n {
         let a = c13_x(&mut c.rng, true);
-        c13_sqrt(c, a);
+        let rr = c13_sqrt(c, a);
+        if pool.len() < 32 {
+            pool.push((rr, a));
+        } else {
+            let (mi, mv) = pool.iter().enumerate().fold((0, f64::INFINITY), |acc, (i, e)| if e.0 < acc.1 { (i, e.0) } else { acc });
+            if rr > mv {
+                pool[mi] = (rr, a);
+            }
+        }
+        if i % 2 == 0 && !pool.is_empty() {
+            // hill-climb on the sqrt error (same mantissa window, other exponents / low words)
+            let k = c.rng.below(pool.len() as u64) as usize;
+            let (_, b0) = pool[k];
+            let b1 = match c.rng.below(3) {
+                0 => {
+                    let sc = pow2(2 * c.rng.range(-200, 200));
+                    (b0.0 * sc, b0.1 * sc)
+                }
+                _ => tf_mutate(&mut c.rng, b0, -900, 899),
+            };
+            if valid_ref(b1.0, b1.1) && b1.0 > 0.0 && exp_of(b1.0).abs() < 900 {
+                let r2 = c13_sqrt(c, b1);
+                let (mi, mv) = pool.iter().enumerate().fold((0, f64::INFINITY), |acc, (i, e)| if e.0 < acc.1 { (i, e.0) } else { acc });
+                if r2 > mv {
+                    pool[mi] = (r2, b1);
+                }
+            }
+        }
         if i % 16 == 0 {
             c13_sqrt(c, (-a.0, -a.1));
         }
